@@ -236,3 +236,15 @@ func (c *ctx) bytesN(n int) []byte {
 func newRand(seed int64) *rand.Rand { return rand.New(rand.NewSource(seed)) }
 
 func (c *ctx) pick(xs ...int) int { return xs[c.rnd.Intn(len(xs))] }
+
+// withSpare returns b as a sub-slice of a larger backing array (guard bytes before, spare capacity
+// with non-zero guard bytes after) together with the backing array, so that a callee that writes
+// outside the slice it was given is observed.
+func withSpare(b []byte) (in []byte, backing []byte) {
+	backing = make([]byte, 3+len(b)+13)
+	for i := range backing {
+		backing[i] = byte(0xa5 ^ i)
+	}
+	copy(backing[3:], b)
+	return backing[3 : 3+len(b)], backing
+}
